@@ -144,6 +144,23 @@ func (d *synDoc) VisitSynonymFields(v index.SynonymFieldVisitor) {
 	}
 }
 
+// geoField is a field that is also an index.GeoShapeField.
+type geoField struct {
+	*field
+	shape []byte
+}
+
+func (g *geoField) GeoShape() (index.GeoJSON, error) { return nil, nil }
+func (g *geoField) EncodedShape() []byte             { return g.shape }
+
+func mkAnyField(fi *model.FieldInst) index.Field {
+	f := mkField(fi)
+	if fi.Shape != nil {
+		return &geoField{field: f, shape: append([]byte(nil), fi.Shape...)}
+	}
+	return f
+}
+
 func mkField(fi *model.FieldInst) *field {
 	f := &field{
 		name:  fi.Name,
@@ -218,7 +235,7 @@ func Docs(b *model.Batch) []index.Document {
 			sd.composite = append(sd.composite, mkField(&d.Composite[j]))
 		}
 		for j := range d.Fields {
-			sd.fields = append(sd.fields, mkField(&d.Fields[j]))
+			sd.fields = append(sd.fields, mkAnyField(&d.Fields[j]))
 		}
 		for _, sf := range d.Syn {
 			sd.fields = append(sd.fields, &synField{name: sf.Thes, pairs: sf.Pairs, noisy: (i+len(sf.Pairs))%3 == 0})
